@@ -457,12 +457,13 @@ def run(ctx):
     # a post-rescaling (logit / log / user pair) is not measure preserving for a uniform prior, so it must switch the
     # offered prime prior off, and nothing may switch it back on afterwards
     from ..callgraph import callgraph as _cg
+    from ..q import holds as _holds
     import networkx as _nx
     g_, _s = _cg(prog)
     cpr = rtb.methods["configure_post_rescaling"]
     ca = FA(cpr)
     offs = ca.find(lambda s_: match_stmt("self.has_prime_prior = False", s_) is not None)
-    okoff = len(offs) == 1 and ("post_rescaling is not None", True) in [(src(e), t) for e, t in guard_facts(ca, offs[0])]
+    okoff = len(offs) == 1 and _holds(guard_facts(ca, offs[0]), "post_rescaling is not None")
     marks = ca.find(lambda s_: match_stmt("self.has_post_rescaling = True", s_) is not None)
     ctx.ob("R-ORDER", "C07.8", cpr, "configuring a post-rescaling switches the offered prime prior off (and records has_post_rescaling) on every such path", okoff and len(marks) == 1 and ca.cfg.must_pass(offs[0], ca.cfg.exit, marks) or (okoff and len(marks) == 1 and ca.dominates(offs[0], marks[0])), "")
     fam = [rtb] + prog.subclasses(rtb)
